@@ -268,9 +268,17 @@ def main(tier, rep):
             ind_box["e"] = e
     ind_thread = threading.Thread(target=ind)
     ind_thread.start()
-    c08_model.check(rep, tier)
-    rep.set("t_model_s", round(common._real_time() - t0, 1))
-    t0 = common._real_time()
+    # (TLC explores the bounded model while the schedules below run on the real pool)
+    mod_box = {}
+
+    def mod():
+        try:
+            c08_model.check(rep, tier)
+            rep.set("t_model_s", round(common._real_time() - t0, 1))
+        except BaseException as e:   # noqa
+            mod_box["e"] = e
+    mod_thread = threading.Thread(target=mod)
+    mod_thread.start()
     # ---- (B) the real code under the scheduler
     pool_codes = codes_of(P)
     pool_codes_names = None
@@ -326,6 +334,9 @@ def main(tier, rep):
         vals, n = json.loads(out)
         results.append(({json.dumps(v["ev"], sort_keys=True) + str(v["h"]["max"]): v for v in vals}, n))
     ind_thread.join()
+    mod_thread.join()
+    if "e" in mod_box:
+        raise mod_box["e"]
     if "e" in ind_box:
         raise ind_box["e"]
     c08_model.inductive_report(rep, ind_box["r"])
